@@ -6,6 +6,8 @@
 //	FAKEGO_MODE=block:N             write N bytes, then block until killed
 //	FAKEGO_MODE=exit:N:CODE         write N bytes, then exit with CODE
 //	FAKEGO_MODE=kill:N:SIG          write N bytes, then die from signal SIG
+//	FAKEGO_MODE=okignore            write everything, ignore write errors and SIGXFSZ, exit 0 (what the real tool does)
+//	FAKEGO_MODE=slow:N:MS           like slow:N with a pause of MS ms
 //	FAKEGO_MODE=slow:N              write N bytes, pause 50 ms, write the rest, exit 0
 //
 // Every invocation is appended to FAKEGO_LOG (if set).
@@ -14,6 +16,7 @@ package main
 import (
 	"fmt"
 	"os"
+	"os/signal"
 	"strconv"
 	"strings"
 	"syscall"
@@ -43,10 +46,22 @@ func main() {
 			n = v
 		}
 	}
+	ignoreErrors := mode[0] == "okignore"
+	if ignoreErrors {
+		// like the real disassembler: write errors (disk full, file size limit) are not noticed, exit status 0
+		signal.Ignore(syscall.SIGXFSZ, syscall.SIGPIPE)
+	}
 	write := func(b []byte) {
 		for len(b) > 0 {
-			k, err := os.Stdout.Write(b)
+			chunk := b
+			if len(chunk) > 512 {
+				chunk = chunk[:512]
+			}
+			k, err := os.Stdout.Write(chunk)
 			if err != nil {
+				if ignoreErrors {
+					return
+				}
 				os.Exit(4)
 			}
 			b = b[k:]
@@ -77,7 +92,11 @@ func main() {
 		os.Exit(3)
 	case "slow":
 		write(data[:n])
-		time.Sleep(50 * time.Millisecond)
+		ms := 50
+		if len(mode) > 2 {
+			ms, _ = strconv.Atoi(mode[2])
+		}
+		time.Sleep(time.Duration(ms) * time.Millisecond)
 		write(data[n:])
 	default:
 		write(data)
